@@ -102,7 +102,31 @@ def enc_case(rng, m, default):
     line = ('# opaque ' if opaque else '') + 'pdu.enc %s %s' % (L.enc_triple(default), line_msg)
     if opaque:
         out = line
-    return Case(line, out, sig, fail, {'op': 'enc', 'default': default, 'msg': line_msg})
+    c = Case(line, out, sig, fail, {'op': 'enc', 'default': default, 'msg': line_msg})
+    return c, again_case(m, default, line_msg, pdu, opaque)
+
+
+def again_case(m, default, line_msg, first, opaque):
+    """pdu() called a second time on the same object (a message sent again after a failed attempt, or serialised by a
+    hook): the bytes on the wire must be the same conformant bytes"""
+    if first is None:
+        return None
+    try:
+        second = m.pdu()
+        out = 'ok %s %s' % (second.hex(), L.enc_triple(m.encoding) if hasattr(m, 'encoding') else '~')
+    except Exception as e:      # noqa
+        second = None
+        out = 'exc ' + exc_name(e)
+    fail = None
+    if second != first:
+        fail = 'pdu() called again on the same object gave %s, the first call gave %s' % (
+            out if second is None else second.hex(), first.hex())
+    sig = ('enc2', type(m).__name__, getattr(m, 'encoding', None), bool(getattr(m, 'message_payload', '')),
+           len(first) > 16 + 254, out[:3] if out.startswith('ok') else out)
+    line = ('# opaque ' if opaque else '') + 'pdu.enc2 %s %s' % (L.enc_triple(default), line_msg)
+    if opaque:
+        out = line
+    return Case(line, out, sig, fail, {'op': 'enc2', 'default': default, 'msg': line_msg})
 
 
 def foreign(rng):
@@ -222,7 +246,10 @@ def generate(rng, tier):
     for i in range(4000 if thorough else 900):
         default = rng.choice(('gsm0338', 'gsm0338', 'gsm0338', 'ucs2', 'ascii', 'latin_1'))
         m = L.rand_other(rng) if i % 3 == 2 else L.rand_sm(rng, rng.choice(('SubmitSm', 'SubmitSm', 'DeliverSm')))
-        yield enc_case(rng, m, default)
+        c, again = enc_case(rng, m, default)
+        yield c
+        if again is not None:
+            yield again
     for _ in range(600 if thorough else 200):
         yield dec_case(rng)
 
@@ -231,7 +258,7 @@ def replay(inp):
     if inp['op'] == 'dec':
         from corr.c03 import dec_case as d3
         return d3(bytes.fromhex(inp['hex']), inp['default'], 'replay')
-    return Case('pdu.enc %s %s' % (L.enc_triple(inp['default']), inp['msg']), '', None, None, inp)
+    return Case('pdu.%s %s %s' % (inp['op'], L.enc_triple(inp['default']), inp['msg']), '', None, None, inp)
 
 
 def classify(case):
